@@ -31,7 +31,7 @@ Definition read_valid (fv : option bytes) (cur : N) (q : c03_read) : Prop :=
   end.
 
 Theorem c03_read_sound Vs fv cur q : wf_store Vs -> no_marker Vs -> read_valid fv cur q -> read_is_model Vs fv cur q ->
-  read_meets in_range Vs cur q = true.
+  read_meets false in_range Vs cur q = true.
 Proof.
   intros WF NM V M. destruct q as [k rev out|a b rev limit out|a b out|a b rev out]; cbn [read_valid read_is_model] in *; try contradiction.
   - destruct V as (Ak & H0 & Hr). subst out. rewrite (c03_get Vs cur k rev WF NM Ak Hr).
@@ -48,7 +48,7 @@ Qed.
 
 (* hence the per-read verdict on such a response is "holds" *)
 Corollary c03_read_verdict_none Vs compat fv cur floor q : wf_store Vs -> no_marker Vs -> read_valid fv cur q ->
-  read_is_model Vs fv cur q -> read_verdict Vs compat cur floor q = None.
+  read_is_model Vs fv cur q -> read_verdict false Vs compat cur floor q = None.
 Proof.
   intros WF NM V M. unfold read_verdict. destruct (in_scope compat Vs cur floor q); [|reflexivity]. cbn [negb].
   rewrite (c03_read_sound Vs fv cur q WF NM V M). reflexivity.
